@@ -34,9 +34,40 @@ theorem relCols_self_mem {eps : Rat} {P : Rat → Prop} {f : Col → Rat} :
       · exact h t (by simp) b (by simp)
       · exact ih bs (fun t' ht b' hb => h t' (by simp [ht]) b' (by simp [hb])) q hq
 
-theorem gmProds_perfect {eps : Rat} {g : Rat → Rat} (hg : g 0 = 0) {yt yb : Mat} (hRt : Rect yt) (hRb : Rect yb)
-    (hn : nrows yt = nrows yb) :
-    ∀ q ∈ relCols eps (fun re => prod (re.map (fun e => floorEps eps (g e)))) yt yt yb, q = eps ^ nrows yt := by
+theorem prod_zipWith_pow_const (e : Rat) : ∀ (xs : List Rat) (as : List Nat), (∀ x ∈ xs, x = e) →
+    as.length ≤ xs.length → prod (List.zipWith (fun x a => x ^ a) xs as) = e ^ as.sum := by
+  intro xs
+  induction xs with
+  | nil =>
+    intro as _ hl
+    have : as = [] := List.length_eq_zero_iff.mp (by simpa using hl)
+    subst this; simp [prod]
+  | cons x xs ih =>
+    intro as h hl
+    cases as with
+    | nil => simp [prod]
+    | cons a as =>
+      have := ih as (fun y hy => h y (by simp [hy])) (by simpa using hl)
+      simp only [List.zipWith_cons_cons, prod, List.foldr_cons, List.sum_cons] at *
+      rw [this, h x (by simp), pow_add]
+
+theorem checkHw_some {n : Nat} {w : List Rat} (h : checkHw n (some w) = .ok ()) : w.length = n := by
+  simpa [checkHw, guard'_ok] using h
+
+/-- all factors equal to `e`: the radicand is `e ^ degree` (degree = n, or the sum of the integer exponents) -/
+theorem gmFactor_const (e : Rat) (hw : Option (List Rat)) (xs : List Rat) (h : ∀ x ∈ xs, x = e)
+    (hlen : checkHw xs.length hw = .ok ()) : gmFactor hw xs = e ^ gmDeg xs.length hw := by
+  cases hw with
+  | none => exact prod_const e xs h
+  | some w =>
+    simp only [gmFactor, gmDeg]
+    apply prod_zipWith_pow_const e xs _ h
+    simp [exps, checkHw_some hlen]
+
+theorem gmProds_perfect {eps : Rat} {g : Rat → Rat} (hg : g 0 = 0) {yt yb : Mat} {hw : Option (List Rat)}
+    (hRt : Rect yt) (hRb : Rect yb) (hn : nrows yt = nrows yb) (hh : checkHw (nrows yt) hw = .ok ()) :
+    ∀ q ∈ relCols eps (fun re => gmFactor hw (re.map (fun e => floorEps eps (g e)))) yt yt yb,
+      q = eps ^ gmDeg (nrows yt) hw := by
   apply relCols_self_mem
   intro t ht b hb
   have hlen : (relCol eps t t b).length = nrows yt := by
@@ -45,32 +76,65 @@ theorem gmProds_perfect {eps : Rat} {g : Rat → Rat} (hg : g 0 = 0) {yt yb : Ma
     intro x hx
     obtain ⟨y, hy, rfl⟩ := List.mem_map.mp hx
     rw [relCol_perfect eps t b y hy, hg, floorEps_zero]
-  rw [prod_const eps _ hall, List.length_map, hlen]
+  have hl2 : ((relCol eps t t b).map (fun e => floorEps eps (g e))).length = nrows yt := by
+    rw [List.length_map, hlen]
+  rw [gmFactor_const eps hw _ hall (by rw [hl2]; exact hh), hl2]
 
 section
-variable {eps : Rat} {yt yb : Mat} {mo : MO} {out : Out} {sqrt : Bool}
+variable {eps : Rat} {yt yb : Mat} {hw : Option (List Rat)} {mo : MO} {out : Out} {sqrt : Bool}
 
 theorem gmrae_perfect_floor (hRt : Rect yt) (hRb : Rect yb)
-    (h : geometricMeanRelativeAbsoluteError eps yt yt yb none mo = .ok out) :
-    out.deg = nrows yt ∧ ∀ q ∈ out.qs, q = eps ^ nrows yt := by
-  obtain ⟨_, hc, _, kq, h1, h2⟩ := gmrae_iff.mp h
-  rw [gmCols_none] at h1
-  cases h1
+    (h : geometricMeanRelativeAbsoluteError eps yt yt yb hw mo = .ok out) :
+    out.deg = gmDeg (nrows yt) hw ∧ ∀ q ∈ out.qs, q = eps ^ gmDeg (nrows yt) hw := by
+  obtain ⟨_, hc, hh, _, _, h2⟩ := gmrae_iff.mp h
   have := finish_ok h2
   refine ⟨this.2, ?_⟩
   rw [this.1]
-  exact gmProds_perfect absR_zero hRt hRb (checkRegTargets_ok hc).1
+  exact gmProds_perfect absR_zero hRt hRb (checkRegTargets_ok hc).1 hh
 
 theorem gmrse_perfect_floor (hRt : Rect yt) (hRb : Rect yb)
-    (h : geometricMeanRelativeSquaredError eps yt yt yb none mo sqrt = .ok out) :
-    out.deg = rootDeg sqrt (nrows yt) ∧ ∀ q ∈ out.qs, q = eps ^ nrows yt := by
-  obtain ⟨_, hc, _, kq, h1, h2⟩ := gmrse_iff.mp h
-  rw [gmCols_none] at h1
-  cases h1
+    (h : geometricMeanRelativeSquaredError eps yt yt yb hw mo sqrt = .ok out) :
+    out.deg = rootDeg sqrt (gmDeg (nrows yt) hw) ∧ ∀ q ∈ out.qs, q = eps ^ gmDeg (nrows yt) hw := by
+  obtain ⟨_, hc, hh, _, _, h2⟩ := gmrse_iff.mp h
   have := finish_ok h2
   refine ⟨this.2, ?_⟩
   rw [this.1]
-  exact gmProds_perfect sqr_zero hRt hRb (checkRegTargets_ok hc).1
+  exact gmProds_perfect sqr_zero hRt hRb (checkRegTargets_ok hc).1 hh
 end
+
+/-! ### the integer exponents of the weighted geometric mean -/
+theorem den_dvd_commonDen : ∀ (ws : List Rat) (x : Rat), x ∈ ws → x.den ∣ commonDen ws := by
+  intro ws
+  induction ws with
+  | nil => intro x hx; simp at hx
+  | cons w ws ih =>
+    intro x hx
+    simp only [commonDen, List.foldr_cons]
+    rcases List.mem_cons.mp hx with rfl | hx
+    · exact Nat.dvd_lcm_left _ _
+    · exact Nat.dvd_trans (ih x hx) (Nat.dvd_lcm_right _ _)
+
+theorem toNat_num_mul (x : Rat) (D : Nat) (hx : 0 ≤ x) (hd : x.den ∣ D) :
+    (((x * (D : Rat)).num.toNat : Nat) : Rat) = x * (D : Rat) := by
+  obtain ⟨m, rfl⟩ := hd
+  have hden : (x.den : Rat) ≠ 0 := by exact_mod_cast x.den_nz
+  have e : x * ((x.den * m : Nat) : Rat) = ((x.num * (m : Int) : Int) : Rat) := by
+    have hx' : x = (x.num : Rat) / (x.den : Rat) := (Rat.num_div_den x).symm
+    push_cast
+    nth_rewrite 1 [hx']
+    field_simp
+  rw [e, Rat.num_intCast]
+  have hn : 0 ≤ x.num * (m : Int) := mul_nonneg (Rat.num_nonneg.mpr hx) (by exact_mod_cast Nat.zero_le m)
+  have : ((x.num * (m : Int)).toNat : Int) = x.num * (m : Int) := Int.toNat_of_nonneg hn
+  exact_mod_cast congrArg (fun z : Int => (z : Rat)) this
+
+/-- the integer exponents are the weights times their common denominator -/
+theorem exps_proportional (ws : List Rat) (hw : ∀ x ∈ ws, 0 ≤ x) :
+    (exps ws).map (Nat.cast : Nat → Rat) = ws.map (fun x => x * (commonDen ws : Rat)) := by
+  unfold exps
+  rw [List.map_map]
+  apply List.map_congr_left
+  intro x hx
+  exact toNat_num_mul x _ (hw x hx) (den_dvd_commonDen ws x hx)
 
 end SkVerif.Lem.Metrics
